@@ -170,6 +170,22 @@ Definition check_bind
   | _, _ => false
   end.
 
+(* restart of an activated flow: bind [ev], then bind the predecessor's start_event again;
+   compared with create_flow_instance + _start_flow run on the real start_event() arguments *)
+Definition check_restart
+  (c : list (param cexpr) * list (param cexpr) * ctx * xbound) : bool :=
+  let '(ps, rs, ev, x) := c in
+  match bind cexpr ceval ps rs ev with
+  | Bound a _ =>
+      let R := mkReserved (VStr "f") (VStr "(f)again") (VStr "@MAIN") (VStr "(head)") (VStr "0.1") in
+      match bind cexpr ceval ps rs (restart_event_args R (VInt 1) a), x with
+      | BTooMany, XTooMany => true
+      | Bound a' k', XBound a'' k'' => ctx_eqb a' a'' && ctx_eqb k' k''
+      | _, _ => false
+      end
+  | _ => false
+  end.
+
 (* ---- whole programs ---- *)
 
 Inductive form := FAwait | FStart | FActivate.
